@@ -35,17 +35,38 @@ def jsonable(x):
     return str(x)
 
 
+CFG_BUDGET_S = int(os.environ.get("VERIF_CFG_BUDGET_S", "3600"))
+
+
+class _Budget(BaseException):       # not an Exception: handlers of the code under test / of the check bodies must not absorb it
+    pass
+
+
 def _worker(args):
     fn_mod, fn_name, cfg = args
     import importlib
+    import signal
     mod = importlib.import_module(fn_mod)
     t = time.time()
+
+    def _over(signum, frame):
+        raise _Budget("configuration exceeded its wall-clock budget of %d s" % CFG_BUDGET_S)
+    try:
+        signal.signal(signal.SIGALRM, _over)
+        signal.alarm(CFG_BUDGET_S)
+    except (ValueError, AttributeError):
+        pass
     try:
         out = getattr(mod, fn_name)(cfg)
         out = out or {}
         out.setdefault("status", "ok")
-    except Exception as e:   # Inconclusive and harness bugs: never a pass
+    except (Exception, _Budget) as e:   # Inconclusive, budget overruns and harness bugs: never a pass
         out = {"status": "inconclusive", "error": "%s: %s" % (type(e).__name__, e), "trace": traceback.format_exc()[-1500:]}
+    finally:
+        try:
+            signal.alarm(0)
+        except (ValueError, AttributeError):
+            pass
     out["cfg"] = cfg
     out["wall_s"] = round(time.time() - t, 3)
     return jsonable(out)
